@@ -3,10 +3,10 @@
    andb/orb are inlined.  N, Z, positive, nat stay Coq datatypes. *)
 Require Extraction.
 Require Import ExtrOcamlBasic.
-From Redo Require Import Base.Bytes Paths.Norm Paths.Rel DoFiles.Candidates.
+From Redo Require Import Base.Bytes Paths.Norm Paths.Rel DoFiles.Candidates LogRec.Meta.
 
 Extraction Language OCaml.
-Set Extraction Output Directory ".".
 Extraction "model.ml"
   normpath abs_path realdirpath relpath db_key
-  possible_do_files arg1 arg2 arg3.
+  possible_do_files arg1 arg2 arg3
+  format parse parse_done_text done_text.
